@@ -172,6 +172,11 @@ func (br *Reader) Read() (*sam.Record, error) {
 	}
 
 done:
+	if b.err != nil {
+		// The record's fixed fields ask for more data than its
+		// block holds.
+		return nil, fmt.Errorf("bam: invalid record: %w", b.err)
+	}
 	refs := int32(len(br.h.Refs()))
 	if refID != -1 {
 		if refID < -1 || refID >= refs {
@@ -339,6 +344,9 @@ func parseAux(aux []byte) ([]sam.Aux, error) {
 		switch j := jumps[t]; {
 		case j > 0:
 			j += 3
+			if i+j > len(aux) {
+				return nil, errors.New("bam: truncated aux data")
+			}
 			aa = append(aa, sam.Aux(aux[i:i+j:i+j]))
 			i += j
 		case j < 0:
@@ -351,8 +359,15 @@ func parseAux(aux []byte) ([]sam.Aux, error) {
 				aa = append(aa, sam.Aux(aux[i:i+j:i+j]))
 				i += j + 1
 			case 'B':
+				if i+8 > len(aux) {
+					return nil, errors.New("bam: truncated aux data")
+				}
+				size := jumps[aux[i+3]]
+				if size <= 0 {
+					return nil, fmt.Errorf("bam: unrecognised array element type: %q", aux[i+3])
+				}
 				length := binary.LittleEndian.Uint32(aux[i+4 : i+8])
-				j = int(length)*jumps[aux[i+3]] + int(unsafe.Sizeof(length)) + 4
+				j = int(length)*size + int(unsafe.Sizeof(length)) + 4
 				if j < 0 || i+j < 0 || i+j > len(aux) {
 					return nil, fmt.Errorf("bam: invalid array length for aux data: %d", length)
 				}
